@@ -4,7 +4,7 @@ from .common import *
 RULE = ("random histories over complete lifetimes of 1..4-level keys (uniform and mixed heights, H2 hook height and H5): steps are "
         "sign/accept, sign/reject, sign with malformed key, retry with another message, in-memory try_sign, lifetime query; the harness-side "
         "ghost set records (level, tree identifier, leaf) -> content for every released signature; a history is non-trivial when it contains at least "
-        "one rejected or failed step between two released signatures; child-tree derivation (hook) for parent leaves over the whole 25-bit range incl. 255..257, 65535..65537, 2^20, 2^24, 2^25-1: equals the hash-sigs derivation and is pairwise distinct")
+        "one rejected or failed step between two released signatures; child-tree derivation (hook) for parent leaves over the whole 25-bit range incl. 255..257, 65535..65537, 2^20, 2^24, 2^25-1: equals the hash-sigs derivation and is pairwise distinct; a signature released on a rejected callback counts as a reuse")
 ASSUMPTIONS = ["tree identifiers are compared as bytes (the observable form of the property)",
                "each history step is one stateless call; the 'persisted key' is carried by the orchestrator exactly as a caller would"]
 
@@ -135,6 +135,13 @@ def run(ctx):
                         ctx.fail("one-time key (level, tree identifier, leaf) signed two different contents",
                                  [keygen_line(k.H, k.params, k.seed), c.line], "level %d I=%s q=%d" % (level, ids[level].hex(), l["q"]), "each LM-OTS key signs one content")
                     h.ghost[key3] = cid
+                if op[0] == "sign" and op[1] == "reject":
+                    # the caller refused to persist the successor: its stored key is unchanged, so the history goes on from h.cur; the
+                    # released signature stays in the ghost set, and the next signature from the stored key shows the reuse
+                    ctx.fail("one-time key (level, tree identifier, leaf) signed two different contents: a signature was released although "
+                             "the successor key was not persisted (the stored key will sign with the same leaves again)",
+                             [keygen_line(k.H, k.params, k.seed), c.line], a[:160], "err: nothing released")
+                    continue
                 # successor key differs only in the counter, +1 (or is the wiped key at the end)
                 if h.released + 1 >= k.lifetime:
                     exp_key = bytes(8) + b"\xff" * 8 + bytes(k.n)
